@@ -1198,10 +1198,30 @@ impl GRLParser {
         // Parse expressions like: User.Age >= 18, Product.Price < 100.0, user.age >= 18, etc.
         // Support both PascalCase (User.Age) and lowercase (user.age) field naming
         // Also support arithmetic expressions like: User.Age % 3 == 0, User.Price * 2 > 100
-        let captures = condition_regex().captures(clause_to_parse).ok_or_else(|| {
-            RuleEngineError::ParseError {
-                message: format!("Invalid condition format: {}", clause_to_parse),
+        let captures = condition_regex().captures(clause_to_parse);
+
+        // The pattern is not anchored, so it may describe only the tail of the clause.
+        // Arithmetic it cannot describe (parenthesised operands, signed literals, a literal
+        // first) is split at the top-level comparison operator and kept as an arithmetic
+        // test instead of being rejected or losing its first part.
+        let covers_whole_clause = captures
+            .as_ref()
+            .and_then(|c| c.get(0))
+            .is_some_and(|m| m.len() == clause_to_parse.len());
+        if !covers_whole_clause {
+            if let Some((left, operator_str, right)) =
+                Self::split_top_level_comparison(clause_to_parse)
+            {
+                if left.contains(['+', '-', '*', '/', '%']) && !left.contains('"') {
+                    let test_expr = format!("{} {} {}", left, operator_str, right);
+                    let condition = Condition::with_test(test_expr, vec![]);
+                    return Ok(ConditionGroup::single(condition));
+                }
             }
+        }
+
+        let captures = captures.ok_or_else(|| RuleEngineError::ParseError {
+            message: format!("Invalid condition format: {}", clause_to_parse),
         })?;
 
         let left_side = captures.get(1).unwrap().trim().to_string();
@@ -1232,6 +1252,41 @@ impl GRLParser {
             let condition = Condition::new(left_side, operator, value);
             Ok(ConditionGroup::single(condition))
         }
+    }
+
+    /// Split `left <cmp> right` at the first comparison operator that is outside
+    /// parentheses and string literals
+    fn split_top_level_comparison(clause: &str) -> Option<(&str, &'static str, &str)> {
+        let mut depth = 0i32;
+        let mut quote: Option<char> = None;
+        for (i, ch) in clause.char_indices() {
+            if let Some(q) = quote {
+                if ch == q {
+                    quote = None;
+                }
+                continue;
+            }
+            match ch {
+                '"' | '\'' => quote = Some(ch),
+                '(' => depth += 1,
+                ')' => depth -= 1,
+                '>' | '<' | '=' | '!' if depth == 0 => {
+                    let rest = &clause[i..];
+                    for op in [">=", "<=", "==", "!=", ">", "<"] {
+                        if rest.starts_with(op) {
+                            let left = clause[..i].trim();
+                            let right = clause[i + op.len()..].trim();
+                            if left.is_empty() || right.is_empty() {
+                                return None;
+                            }
+                            return Some((left, op, right));
+                        }
+                    }
+                }
+                _ => {}
+            }
+        }
+        None
     }
 
     fn parse_conditions_within_object(&self, conditions_str: &str) -> Result<ConditionGroup> {
